@@ -154,7 +154,9 @@ def prog(env, case):
     kw = dict(wrapper=backend, verbose=spec.get('verbose', 0), return_primal_or_dual=spec.get('return', 'dual'))
     if spec.get('dimred'):
         kw['dimension_reduction_heuristic'] = spec['dimred']
-    tau = m.pep.solve(**kw)
+    tau, err = pipeline.safe_solve(env, m.pep, "C01:%s:%s" % (backend, case['id'].rsplit('-', 1)[0]), **kw)
+    if err:
+        return err
     if not env.sym:
         return concrete_check(env, m, tau, spec)
     if tau is None:
